@@ -430,7 +430,7 @@ Theorem build_no_pending : forall W o g roots imports g',
   no_pending (bg_slots g) -> build W o g roots imports = Some g' -> no_pending (bg_slots g').
 Proof.
   intros W o g roots imports g' Hg Hb. unfold build in Hb.
-  match type of Hb with context [resolve_pending ?f W o ?st] => set (st2 := st) in *; set (fuel := f) in * end.
+  match type of Hb with context [resolve_pending ?f W o ?st] => set (fuel := f) in *; set (st2 := st) in * end.
   destruct (resolve_pending fuel W o st2) as [st|] eqn:HR; [|discriminate].
   inversion Hb; subst; clear Hb. cbn [bg_slots finish].
   assert (H2 : PendInv None st2).
@@ -454,7 +454,7 @@ Theorem reload_no_pending : forall W o g specs g',
   no_pending (bg_slots g) -> reload W o g specs = Some g' -> no_pending (bg_slots g').
 Proof.
   intros W o g specs g' Hg Hb. unfold reload in Hb.
-  match type of Hb with context [resolve_pending ?f W o ?st] => set (st1 := st) in *; set (fuel := f) in * end.
+  match type of Hb with context [resolve_pending ?f W o ?st] => set (fuel := f) in *; set (st1 := st) in * end.
   destruct (resolve_pending fuel W o st1) as [st|] eqn:HR; [|discriminate].
   inversion Hb; subst; clear Hb. cbn [bg_slots finish].
   assert (H1 : PendInv None st1).
@@ -463,6 +463,9 @@ Proof.
   apply npm_fill_no_pending.
   intros s a Hl. specialize (Hinv s a ltac:(discriminate) Hl). rewrite Hp in Hinv. exact Hinv.
 Qed.
+
+Lemma resolve_pending_idle : forall fuel W o st, idle st = true -> resolve_pending fuel W o st = Some st.
+Proof. intros fuel W o st H. destruct fuel; cbn [resolve_pending]; rewrite H; reflexivity. Qed.
 
 (* C19: building again with roots and imports the graph already has changes nothing *)
 Theorem build_known_roots_identity : forall W o g roots imports,
@@ -486,6 +489,6 @@ Proof.
   { unfold spec in *. induction imports as [|p ps IH]; [reflexivity|]. cbn [filter].
     rewrite (Hi p (or_introl eq_refl)). cbn [negb]. apply IH. intros p' H'. apply Hi. right; exact H'. }
   unfold spec in *. rewrite E1, E2. cbn [dedup_keep_first dedup_keep_first_aux load_roots load_imports].
-  unfold build_fuel. cbn [idle init_state st_pending st_dyn st_deferred resolve_pending Nat.add Nat.mul]. rewrite !app_nil_r.
+  rewrite resolve_pending_idle by reflexivity. rewrite !app_nil_r.
   unfold finish, npm_resolve. cbn [init_state st_npm st_slots st_redirects st_has_node st_calls st_lock_sets]. destruct (w_npm W) eqn:E; reflexivity.
 Qed.
